@@ -1671,3 +1671,20 @@ Example required_only_branch :
      = Some [(sident, true, TPrim PInteger); (slabel, true, TPrim PString); (sowner, true, TRef sAccount); (snote, false, TPrim PString)]
   /\ declared spec_strict sLeaf = model_fields (parse_doc default_max_depth spec_strict) sLeaf.
 Proof. vm_compute. repeat split. Qed.
+
+(* regression for F02e (fixed by 635317b): a top-level pure alias, declared before or after its target and chained,
+   is registered under its own name with exactly the target's declared fields *)
+Definition sAlias : str := [65;108;105;97;115].
+Definition sAliasTwo : str := [65;108;105;97;115;84;119;111].
+Definition spec_alias : spec :=
+  [(sAliasTwo, Ref sAlias); (sAlias, Ref sBase);
+   (sBase, Obj [(sident, Prim PInteger); (slabel, Prim PString)] [sident])].
+Example alias_regression :
+  all_present spec_alias (parse_doc default_max_depth spec_alias) = true
+  /\ events (parse_doc default_max_depth spec_alias) = []
+  /\ faithful_b spec_alias (parse_doc default_max_depth spec_alias) sAlias = true
+  /\ faithful_b spec_alias (parse_doc default_max_depth spec_alias) sAliasTwo = true
+  /\ faithful_b (rev spec_alias) (parse_doc default_max_depth (rev spec_alias)) sAliasTwo = true
+  /\ model_fields (parse_doc default_max_depth spec_alias) sAliasTwo
+     = Some [(sident, true, TPrim PInteger); (slabel, false, TPrim PString)].
+Proof. vm_compute. repeat split. Qed.
